@@ -40,17 +40,20 @@ type jxFormat struct {
 	fresh     func() interface{}
 	marshal   func(interface{}) ([]byte, error)
 	unmarshal func([]byte, interface{}) error
+	// expect turns the value handed to Marshal into the value Unmarshal owes
+	// (nil: the same value)
+	expect func(interface{})
 }
 
 func jxJSON(scen, typ string, fresh func() interface{}) *jxFormat {
-	return &jxFormat{scen, typ, fresh, json.Marshal, json.Unmarshal}
+	return &jxFormat{scen, typ, fresh, json.Marshal, json.Unmarshal, nil}
 }
 
 var (
 	jxCytoElem     = jxJSON("cytoscapejs", "GraphElem", func() interface{} { return new(cytoscapejs.GraphElem) })
 	jxCytoNodeEdge = jxJSON("cytoscapejs", "GraphNodeEdge", func() interface{} { return new(cytoscapejs.GraphNodeEdge) })
 	jxSigma        = jxJSON("sigmajs", "Graph", func() interface{} { return new(sigmajs.Graph) })
-	jxGexf         = &jxFormat{"gexf12", "Content", func() interface{} { return new(gexf12.Content) }, xml.Marshal, xml.Unmarshal}
+	jxGexf         = &jxFormat{"gexf12", "Content", func() interface{} { return new(gexf12.Content) }, xml.Marshal, xml.Unmarshal, nil}
 )
 
 func init() {
@@ -105,9 +108,16 @@ func jxRun(c *Ctx, f *jxFormat, orig interface{}, raw []byte) *Violation {
 	doc := raw
 	if orig != nil {
 		if v := c.Guard(f.typ+"/control", func() string { return fmt.Sprintf("round trip of %+v", orig) }, func() *Violation {
+			before := fmt.Sprintf("%#v", orig) // (jxDump would marshal)
 			b1, err := f.marshal(orig)
 			if err != nil {
 				return viol(f.sig("marshal"), "Marshal of a generated value fails: %v\nvalue: %+v", err, orig)
+			}
+			// encoding reads the value: what is decoded later is compared with
+			// the value as it was handed in, not with what Marshal left of it
+			c.Oracle("marshal-leaves-value-unchanged")
+			if after := fmt.Sprintf("%#v", orig); after != before {
+				return viol(f.sig("marshal-changes-value"), "Marshal changed the value it was given\nbefore: %s\nafter:  %s", before, after)
 			}
 			doc = b1
 			c.Case("control", true, hashBytes(b1))
@@ -120,6 +130,9 @@ func jxRun(c *Ctx, f *jxFormat, orig interface{}, raw []byte) *Violation {
 			c.Oracle("roundtrip")
 			if err := f.unmarshal(b1, v1); err != nil {
 				return viol(f.sig("roundtrip-unmarshal"), "Unmarshal rejects the output of Marshal: %v\ndocument: %s", err, jxShow(b1))
+			}
+			if f.expect != nil {
+				f.expect(orig)
 			}
 			if !reflect.DeepEqual(orig, v1) {
 				return viol(f.sig("roundtrip-value"), "Unmarshal(Marshal(v)) != v\ndocument: %s\nv:    %s\nback: %s", jxShow(b1), jxDump(orig), jxDump(v1))
@@ -267,6 +280,22 @@ func jxAttrs(t *simrt.Tape) map[string]interface{} {
 // attribute is dropped, also from the caller's map, which is why another
 // attribute always accompanies it: the map must not become empty), so the
 // value still round-trips, and the fixed fields must not be replaced.
+func init() {
+	// an attribute named like a fixed field cannot be told from the field in
+	// the document: the field wins and the attribute is not read back
+	jxSigma.expect = func(v interface{}) {
+		g := v.(*sigmajs.Graph)
+		for i := range g.Nodes {
+			delete(g.Nodes[i].Attributes, "id")
+		}
+		for i := range g.Edges {
+			for _, k := range []string{"id", "source", "target"} {
+				delete(g.Edges[i].Attributes, k)
+			}
+		}
+	}
+}
+
 func jxAttrsReserved(t *simrt.Tape, reserved []string) map[string]interface{} {
 	m := jxAttrs(t)
 	if m != nil && t.Choose(simrt.KWorkload, 3) == 2 {
